@@ -182,6 +182,20 @@ impl<const N: usize> CobsAccumulator<N> {
     }
 }
 
+/// Verification hooks (compiled only with `--cfg postcard_verif`).
+#[cfg(postcard_verif)]
+impl<const N: usize> CobsAccumulator<N> {
+    /// Build an accumulator in an arbitrary state (`buf`, `idx`).
+    pub fn verif_from_parts(buf: [u8; N], idx: usize) -> Self {
+        CobsAccumulator { buf, idx }
+    }
+
+    /// Read-only view of the accumulator state: the whole buffer and the fill level.
+    pub fn verif_parts(&self) -> (&[u8; N], usize) {
+        (&self.buf, self.idx)
+    }
+}
+
 #[cfg(test)]
 mod test {
     use super::*;
